@@ -3,6 +3,7 @@
 A *spec* is what replay files store.  Shape:
   {"kind": "table"|"multi"|"figure",
    "df": frame | [frame...]            frame = {"cols":[..], "rows":[[cell..]..]}  cells: str|int|float|None
+                                       (optional "dtypes": {col: polars dtype name} — see pyvalue)
    "page": {kwargs}, "title": {kwargs}|None, "subline": ..., "page_header": ..., "page_footer": ...,
    "headers": "default" | [] | [{kwargs}...] | [[{kwargs}|None ...] ...],
    "body": {kwargs} | [{kwargs}...], "footnote": {kwargs}|None, "source": {kwargs}|None,
@@ -27,14 +28,70 @@ def _untuple(v):
     return v
 
 
+def pyvalue(v, dt):
+    """python value that polars hands out (`series[i]`) for JSON cell `v` of a column with explicit dtype `dt`
+    (frame key "dtypes": {column: name}).  JSON forms: Date 'YYYY-MM-DD', Datetime ISO, Time 'HH:MM:SS[.ffffff]',
+    Decimal:<scale> a decimal string, Float32 a float (rounded to binary32 here), integer types ints, Boolean bools,
+    Categorical / String strings."""
+    if v is None:
+        return None
+    if dt == "Date":
+        import datetime
+        return datetime.date.fromisoformat(v)
+    if dt == "Datetime":
+        import datetime
+        return datetime.datetime.fromisoformat(v)
+    if dt == "Time":
+        import datetime
+        return datetime.time.fromisoformat(v)
+    if dt.startswith("Decimal"):
+        import decimal
+        scale = int(dt.split(":")[1])
+        return decimal.Decimal(v).quantize(decimal.Decimal(1).scaleb(-scale))
+    if dt == "Float32":
+        import struct
+        return struct.unpack("f", struct.pack("f", float(v)))[0]
+    if dt == "Float64":
+        return float(v)
+    return v
+
+
+def cell_str(fr, j, v) -> str:
+    """`str(df[col][i])` of cell `v` in column index j of frame spec `fr` — what calculate_row_metadata measures and
+    (for non-null values) what the renderer shows; identical to str(v) when the frame declares no dtypes"""
+    dts = fr.get("dtypes")
+    if dts and fr["cols"][j] in dts:
+        return str(pyvalue(v, dts[fr["cols"][j]]))
+    return str(v)
+
+
+def _typed_series(c, vals, dt):
+    import polars as pl
+
+    if dt.startswith("Decimal"):
+        pdt = pl.Decimal(precision=38, scale=int(dt.split(":")[1]))
+    elif dt == "Datetime":
+        pdt = pl.Datetime("us")
+    else:
+        pdt = getattr(pl, dt)
+    pv = [pyvalue(v, dt) for v in vals]
+    if dt == "Categorical":
+        return pl.Series(c, pv, dtype=pl.Utf8).cast(pl.Categorical)
+    return pl.Series(c, pv, dtype=pdt)
+
+
 def make_frame(fr):
     import polars as pl
 
     cols = fr["cols"]
     rows = fr["rows"]
+    dts = fr.get("dtypes") or {}
     data = {}
     for j, c in enumerate(cols):
         vals = [r[j] for r in rows]
+        if c in dts:
+            data[c] = _typed_series(c, vals, dts[c])
+            continue
         nn = [v for v in vals if v is not None]
         if nn and all(isinstance(v, bool) for v in nn):
             dt = pl.Boolean
